@@ -278,7 +278,8 @@ Proof.
   intros Hr. unfold simple_update.
   assert (H0 : r <? 0 = false) by (apply Z.ltb_ge; lia). rewrite H0. split.
   - intros E. injection E as E'.
-    apply Z.add_reg_l in E'. apply Z.mul_reg_l in E'; lia.
+    assert (E2 : r * (H1 n - H2 n) = 0) by (rewrite Z.mul_sub_distr_l; rewrite !Z.mul_add_distr_l in E'; lia).
+    apply Z.mul_eq_0 in E2. lia.
   - intros ->. reflexivity.
 Qed.
 
